@@ -428,8 +428,9 @@ def search(rec, ctx, ops, shard, nshards, fresh):
             mine = (not pub) or (key % nshards == shard)
             if mine:
                 rec.distinct.add(key)
-            for op in ops:
-                disc = is_disc(hist, op)
+            # discovery actions first, so that a state every shard finds is marked public here too before a
+            # non-discovery action of this shard reaches it (otherwise this shard would expand it as well)
+            for disc, op in [(True, o) for o in ops if is_disc(hist, o)] + [(False, o) for o in ops if not is_disc(hist, o)]:
                 if not (mine or disc):
                     continue
                 s2 = restore(hist)
